@@ -6,10 +6,12 @@
 package main
 
 import (
+	"encoding/json"
 	"flag"
 	"fmt"
 	"math"
 	"math/big"
+	"os"
 	"strings"
 	"time"
 
@@ -192,8 +194,22 @@ func main() {
 	seed := flag.Uint64("seed", 1, "")
 	n := flag.Int("n", 100, "")
 	only := flag.Int("only", -1, "")
-	mode := flag.String("mode", "bo", "col|seq|bo|settle")
+	mode := flag.String("mode", "bo", "col|seq|bo|settle|pairs|pairs-settle|corpus|corpus-settle")
+	corpusFile := flag.String("corpus", "", "JSON list of {P, Q, box, scale, fam} for the corpus modes")
 	flag.Parse()
+	var corpus []corpusEntry
+	if *corpusFile != "" {
+		b, err := os.ReadFile(*corpusFile)
+		if err != nil {
+			panic(err)
+		}
+		if err := json.Unmarshal(b, &corpus); err != nil {
+			panic(err)
+		}
+		if *n > len(corpus) {
+			*n = len(corpus)
+		}
+	}
 	o := out.New()
 	defer o.Close()
 	root := rng.New(*seed ^ uint64(len(*mode))*7919)
@@ -211,6 +227,20 @@ func main() {
 			boCase(o, r, i, false)
 		case "settle":
 			boCase(o, r, i, true)
+		case "pairs", "pairs-settle":
+			// the generated operands only (for the coverage miner, tools/covermine)
+			if pr, ok := genPair(r, *mode == "pairs-settle"); ok {
+				o.Emit(out.Case{I: i, Fam: pr.fam, Coq: "", Desc: map[string]interface{}{"P": pr.P.String(), "Q": pr.Q.String(), "box": []int{pr.x0, pr.y0, pr.x1, pr.y1}, "scale": pr.scale}})
+			}
+		case "corpus", "corpus-settle":
+			if i < len(corpus) {
+				e := corpus[i]
+				P, err1 := canvas.ParseSVGPath(e.P)
+				Q, err2 := canvas.ParseSVGPath(e.Q)
+				if err1 == nil && err2 == nil && len(e.Box) == 4 {
+					judgePair(o, r, i, *mode == "corpus-settle", pair{P, Q, "corpus:" + e.Fam, e.Box[0], e.Box[1], e.Box[2], e.Box[3], e.Scale})
+				}
+			}
 		}
 	}
 }
@@ -431,7 +461,30 @@ func jitter(p *canvas.Path, r *rng.R) *canvas.Path {
 	return q
 }
 
+// pair is one generated operand pair: the paths, the family name, and the sampling box in units of the grid scale
+type corpusEntry struct {
+	P, Q  string
+	Box   []int
+	Scale float64
+	Fam   string
+}
+
+type pair struct {
+	P, Q           *canvas.Path
+	fam            string
+	x0, y0, x1, y1 int
+	scale          float64
+}
+
 func boCase(o *out.W, r *rng.R, i int, settle bool) {
+	pr, ok := genPair(r, settle)
+	if !ok {
+		return
+	}
+	judgePair(o, r, i, settle, pr)
+}
+
+func genPair(r *rng.R, settle bool) (pair, bool) {
 	ipP := gen.Poly(r)
 	var ipQ gen.IPoly
 	fam := ipP.Family
@@ -479,12 +532,23 @@ func boCase(o *out.W, r *rng.R, i int, settle bool) {
 			dirs[k], dirs[j] = dirs[j], dirs[k]
 		}
 		nt := r.Range(3, 5)
+		if r.P(2, 3) { // mostly with a vertical edge through the point
+			for k := range dirs {
+				if dirs[k] == [2]int{0, 1} {
+					j := r.Intn(nt)
+					dirs[k], dirs[j] = dirs[j], dirs[k]
+				}
+			}
+		}
 		var pcs, qcs [][]gen.IPt
 		for k := 0; k < nt; k++ {
 			d := dirs[k]
 			m, n := r.Range(1, 3), r.Range(1, 3)
-			if r.P(1, 6) {
-				m = 0 // this one has a vertex at the point
+			switch r.Intn(6) {
+			case 0:
+				m = 0 // this one starts at the point
+			case 1, 2:
+				n = 0 // this one ends at the point (a right end point when the direction points to the right)
 			}
 			a := gen.IPt{X: cx - m*d[0], Y: cy - m*d[1]}
 			b := gen.IPt{X: cx + n*d[0], Y: cy + n*d[1]}
@@ -533,7 +597,7 @@ func boCase(o *out.W, r *rng.R, i int, settle bool) {
 		P, Q = jitter(P, r), jitter(Q, r)
 		fam += "+jitter"
 	}
-	if r.P(1, 4) {
+	if r.P(1, 3) {
 		// near miss: one more triangle in P with a vertex 2^-29 or 2^-28 (1.9e-9, 3.7e-9: inside the 1e-8 snap square) beside
 		// an integer point of an edge of P, without being an exact intersection
 		if v, ok := nearMissVertex(r, ipP); ok {
@@ -542,12 +606,31 @@ func boCase(o *out.W, r *rng.R, i int, settle bool) {
 			sc := ipP.Scale
 			x0, y0, x1, y1 := ipP.Bounds()
 			P.MoveTo(float64(v.X)*sc, float64(v.Y)*sc+eps)
-			P.LineTo(float64(r.Range(x0-1, x1+1))*sc, float64(r.Range(y0-1, y1+1))*sc)
-			P.LineTo(float64(r.Range(x0-1, x1+1))*sc, float64(r.Range(y0-1, y1+1))*sc)
+			switch r.Intn(3) {
+			case 0: // both neighbours to the left: the vertex is a right end point only, its tolerance square has no starting segment
+				P.LineTo(float64(r.Range(x0-2, v.X-1))*sc, float64(r.Range(y0-1, y1+1))*sc)
+				P.LineTo(float64(r.Range(x0-2, v.X-1))*sc, float64(r.Range(y0-1, y1+1))*sc)
+			case 1: // both to the right
+				P.LineTo(float64(r.Range(v.X+1, x1+2))*sc, float64(r.Range(y0-1, y1+1))*sc)
+				P.LineTo(float64(r.Range(v.X+1, x1+2))*sc, float64(r.Range(y0-1, y1+1))*sc)
+			default:
+				P.LineTo(float64(r.Range(x0-1, x1+1))*sc, float64(r.Range(y0-1, y1+1))*sc)
+				P.LineTo(float64(r.Range(x0-1, x1+1))*sc, float64(r.Range(y0-1, y1+1))*sc)
+			}
 			P.Close()
 			fam += "+nearmiss"
 		}
 	}
+	x0, y0, x1, y1 := ipP.Bounds()
+	if !settle {
+		a, b, c, d := ipQ.Bounds()
+		x0, y0, x1, y1 = min(x0, a+dx), min(y0, b+dy), max(x1, c+dx), max(y1, d+dy)
+	}
+	return pair{P, Q, fam, x0, y0, x1, y1, ipP.Scale}, true
+}
+
+func judgePair(o *out.W, r *rng.R, i int, settle bool, pr pair) {
+	P, Q, fam := pr.P, pr.Q, pr.fam
 	pc, _, ok1 := decodeFlat(P)
 	qc, _, ok2 := decodeFlat(Q)
 	if !ok1 || !ok2 || len(pc) == 0 {
@@ -621,13 +704,9 @@ func boCase(o *out.W, r *rng.R, i int, settle bool) {
 			}
 			desc["R"] = res.p.String()
 			// samples
-			x0, y0, x1, y1 := ipP.Bounds()
-			if !settle {
-				a, b, c, d := ipQ.Bounds()
-				x0, y0, x1, y1 = min(x0, a+dx), min(y0, b+dy), max(x1, c+dx), max(y1, d+dy)
-			}
+			x0, y0, x1, y1 := pr.x0, pr.y0, pr.x1, pr.y1
 			var samples []ipt
-			u := units(ipP.Scale)
+			u := units(pr.scale)
 			for k := 0; k < 14; k++ {
 				samples = append(samples, ipt{int64(2*r.Range(x0-1, x1)+1) * u / 2, int64(2*r.Range(y0-1, y1)+1) * u / 2})
 			}
